@@ -115,6 +115,33 @@ Definition spec_uncovered (pat : entries) (nrows ncols : nat) (thr : Q) (M : nat
   : list (nat * nat) :=
   flat_map (fun c => uncovered_of pat nrows thr c (fun r => M r c)) (seq 0 ncols).
 
+(* ------------------------------------------------------------------ duplicate pattern entries *)
+
+(* A scipy COO value may list a (row, col) position several times; its dense view SUMS the
+   duplicates.  [store_col] above (the code as pinned) writes the full column value into every
+   duplicate; the repaired store writes it into the first occurrence only. *)
+Fixpoint store_col_fixed (seen pat : entries) (vs : list Q) (icol : nat) (column : nat -> Q)
+  : list Q :=
+  match pat, vs with
+  | e :: pat', v :: vs' =>
+      (if Nat.eqb (snd e) icol
+       then (if existsb (eqb2 e) seen then 0%Q else column (fst e))
+       else v) :: store_col_fixed (e :: seen) pat' vs' icol column
+  | _, _ => vs
+  end.
+
+(* todense of a COO matrix: duplicates are summed *)
+Fixpoint dense_sum (pat : entries) (vs : list Q) (r c : nat) : Q :=
+  match pat, vs with
+  | e :: pat', v :: vs' => ((if eqb2 e (r, c) then v else 0) + dense_sum pat' vs' r c)%Q
+  | _, _ => 0%Q
+  end.
+
+Definition store_all (fixed : bool) (pat : entries) (cols : list (nat * (nat -> Q))) (vs : list Q)
+  : list Q :=
+  fold_left (fun vs ic => if fixed then store_col_fixed [] pat vs (fst ic) (snd ic)
+                          else store_col pat vs (fst ic) (snd ic)) cols vs.
+
 (* ------------------------------------------------------------------ get_tol_violation *)
 
 (* numpy argmax over Q: index and value of the first maximum *)
@@ -224,3 +251,8 @@ Definition run_partials_steps (fixed : bool) (kc : Z) (pat : entries) (nrows nco
 
 Definition run_errors (x ref : list (list Q)) (atol rtol : Q) : val :=
   vtv (get_tol_violation (List.concat x) (List.concat ref) atol rtol).
+
+(* J_fd reported for a COO partial whose pattern may contain duplicate entries *)
+Definition run_dup (fixed : bool) (pat : entries) (nrows ncols : nat) (fd : list (list Q)) : val :=
+  let vs := store_all fixed pat (matrix_cols (matQ fd) ncols) (map (fun _ => 0%Q) pat) in
+  vmatQ (map (fun r => map (fun c => dense_sum pat vs r c) (seq 0 ncols)) (seq 0 nrows)).
